@@ -926,13 +926,18 @@ class IMAPUserServer:
         Return the next uid_vv. Also update the underlying database
         so that its uid_vv state remains up to date.
         """
+        # NOTE: Hand out the value we computed, not `self.uid_vv` as it is
+        #       after the await: other callers draw their value while we wait
+        #       for the db, and they must all get different ones.
+        #
         self.uid_vv += 1
+        uid_vv = self.uid_vv
         await self.db.execute(
             "UPDATE user_server SET uid_vv = ?",
-            (str(self.uid_vv),),
+            (str(uid_vv),),
             commit=True,
         )
-        return self.uid_vv
+        return uid_vv
 
     ##################################################################
     #
